@@ -365,6 +365,9 @@ func Generate(profile string, seed uint64, tier string) (*Scenario, error) {
 	case "C13j":
 		sc.Property = "C13"
 		genC13j(g, sc, tier)
+	case "C07j":
+		sc.Property = "C07"
+		genC07j(g, sc, tier)
 	default:
 		return genOther(g, sc, profile, tier)
 	}
@@ -536,7 +539,7 @@ func Execute(sc *Scenario) *Verdict {
 		return RunC11Scenario(sc)
 	case "C15":
 		return RunC15Scenario(sc)
-	case "C08", "C10", "C17", "C18", "C13j":
+	case "C08", "C10", "C17", "C18", "C13j", "C07j":
 		return RunJobScenario(sc)
 	case "C05", "C02c", "C12c", "C13c", "C19c", "C07c":
 		return RunConcScenario(sc)
@@ -2497,4 +2500,56 @@ func genC13j(g *G, sc *Scenario, tier string) {
 		sc.Ops = append(sc.Ops, Op{K: "batch", DS: "srcA", Ents: []Ent{mk(id)}})
 	}
 	sc.Ops = append(sc.Ops, Op{K: "triggerRun"}, Op{K: "checkPrefixAnswers", DS: "sink", S: ns, A: later})
+}
+
+// genC07j: the JavaScript transform of a job that lives across runs (cron trigger) looks an entity of another
+// dataset up (FindById) and asks for its relations (Query) for every entity it transforms and writes the answers
+// into the entity. Then that other dataset is deleted: runs after the delete must be told nothing of it.
+func genC07j(g *G, sc *Scenario, tier string) {
+	sc.Datasets = []string{"srcA", "sink", "vX", "keep"}
+	victim, friend := ExE+"victim", ExE+"friend"
+	scope := "[]"
+	if g.P(0.3) {
+		scope = "[\"vX\"]"
+	}
+	code := "function transform_entities(entities) { var s = GetNamespacePrefix(\"" + ExS + "\"); for (var i = 0; i < entities.length; i++) { var f = FindById(\"" + victim + "\", " + scope + "); var n = 0; if (f != null && f.Properties != null) { for (var k in f.Properties) { n++; } } SetProperty(entities[i], s, \"found\", n); var q = Query([\"" + victim + "\"], \"" + ExS + "knows\", false, " + scope + "); SetProperty(entities[i], s, \"rels\", q == null ? 0 : q.length); var q2 = Query([\"" + friend + "\"], \"" + ExS + "knows\", true, " + scope + "); SetProperty(entities[i], s, \"back\", q2 == null ? 0 : q2.length); } return entities; }"
+	jt := g.Pick([]string{"incremental", "fullsync"})
+	cfg := jobConfig("job1", map[string]any{"Type": "DatasetSource", "Name": "srcA"}, map[string]any{"Type": "DatasetSink", "Name": "sink"},
+		map[string]any{"Type": "JavascriptTransform", "Code": base64.StdEncoding.EncodeToString([]byte(code))}, jt, g.Range(1, 3))
+	viaTrigger := g.P(0.7)
+	if viaTrigger {
+		cfg["paused"] = false
+		cfg["triggers"] = []any{map[string]any{"triggerType": "cron", "jobType": jt, "schedule": "@every 10m"}}
+	}
+	run := Op{K: "triggerRun"}
+	if !viaTrigger {
+		run = Op{K: "runPlain", S: "job1", DS: jt}
+	}
+	sc.Ops = append(sc.Ops, Op{K: "addJob", M: cfg})
+	mk := func(id string) Ent {
+		return Ent{"id": MkE + id, "props": map[string]any{MkS + "v": float64(g.Intn(100))}, "refs": map[string]any{}}
+	}
+	sc.Ops = append(sc.Ops, Op{K: "batch", DS: "keep", Ents: []Ent{mk("friend")}})
+	sc.Ops = append(sc.Ops, Op{K: "batch", DS: "vX", Ents: []Ent{{"id": MkE + "victim", "props": map[string]any{MkS + "v": float64(1)}, "refs": map[string]any{MkS + "knows": MkE + "friend"}}}})
+	before := []any{}
+	for r := g.Range(1, 2); r > 0; r-- {
+		id := fmt.Sprintf("a%d", r)
+		before = append(before, MkE+id)
+		sc.Ops = append(sc.Ops, Op{K: "batch", DS: "srcA", Ents: []Ent{mk(id)}})
+	}
+	sc.Ops = append(sc.Ops, run, Op{K: "checkTransformSaw", DS: "sink", N: 1, A: before})
+	sc.Ops = append(sc.Ops, Op{K: "deleteDataset", DS: "vX"})
+	if g.P(0.3) {
+		sc.Ops = append(sc.Ops, Op{K: "createDataset", DS: "vX"})
+	}
+	after := []any{}
+	for r := g.Range(1, 2); r > 0; r-- {
+		id := fmt.Sprintf("z%d", r)
+		after = append(after, MkE+id)
+		sc.Ops = append(sc.Ops, Op{K: "batch", DS: "srcA", Ents: []Ent{mk(id)}})
+	}
+	if jt == "fullsync" {
+		after = append(after, before...)
+	}
+	sc.Ops = append(sc.Ops, run, Op{K: "checkTransformSaw", DS: "sink", N: 0, A: after})
 }
